@@ -90,6 +90,14 @@ func (t *SensitiveType) Equals(o interface{}, g px.Guard) bool {
 	return false
 }
 
+func (t *SensitiveType) Get(key string) (value px.Value, ok bool) {
+	switch key {
+	case `type`:
+		return t.typ, true
+	}
+	return nil, false
+}
+
 func (t *SensitiveType) Generic() px.Type {
 	return NewSensitiveType(px.GenericType(t.typ))
 }
